@@ -826,6 +826,7 @@ def class_sweep(payload):
                     n0 = len(_libsc3.main._current_synthdef._children)
                     getattr(cls, ctor)(*args)
                     made['units'] = [type(c).__name__ for c in _libsc3.main._current_synthdef._children[n0:]]
+                    made['objs'] = [c for c in _libsc3.main._current_synthdef._children[n0:] if type(c).__name__ == name]
                     Out.ar(0, SinOsc.ar(440))
                 try:
                     sd = SynthDef('sw', f)
@@ -855,7 +856,16 @@ def class_sweep(payload):
                             status = 'reader recovers a different definition'
                     except Exception as ex:
                         status = f'reader rejects the bytes: {type(ex).__name__}: {str(ex)[:100]}'
-                res.append([name, ctor, argkind, status])
+                # C01: the unit runs at the rate it was created with
+                want = {'ar': 2, 'kr': 1, 'ir': 0, 'dr': 3}.get(ctor)
+                rates = []
+                if status == 'ok' and want is not None:
+                    kids = list(sd._children)
+                    for o in made.get('objs', []):
+                        pos = [i for i, c in enumerate(kids) if c is o]
+                        if pos and pos[0] < len(d['ugens']) and d['ugens'][pos[0]]['cls'] == name:
+                            rates.append(d['ugens'][pos[0]]['rate'])
+                res.append([name, ctor, argkind, status, want, rates])
     return res
 
 
